@@ -313,7 +313,9 @@ func DynExtra(yield func(u *Universe)) {
 				kind[i] = x % 4
 				x /= 4
 			}
-			finals := []string{`"$dynamicRef":"#n"`, `"$dynamicRef":"#k"`, `"$ref":"#n"`, `"$ref":"#k"`, `"$ref":"r0.json#n"`, `"$dynamicRef":"r0.json#k"`, `"allOf":[{"$ref":"#n"},{"$dynamicRef":"#n"}]`}
+			finals := []string{`"$dynamicRef":"#n"`, `"$dynamicRef":"#k"`, `"$ref":"#n"`, `"$ref":"#k"`, `"$ref":"r0.json#n"`, `"$dynamicRef":"r0.json#k"`, `"allOf":[{"$ref":"#n"},{"$dynamicRef":"#n"}]`,
+				// the anchor name percent-encoded in the reference (the same name once decoded)
+				`"$dynamicRef":"#%6E"`, `"$dynamicRef":"r0.json#%6e"`, `"$ref":"#%6E"`}
 			for _, fin := range finals {
 				for placement := 0; placement < 2; placement++ {
 					res := make([]string, k)
@@ -373,6 +375,27 @@ func DynExtra(yield func(u *Universe)) {
 						}
 						yield(u)
 					}
+				}
+			}
+		}
+	}
+	// C2: the same pattern with a second extension "loose" embedded in the root that carries a
+	// default (Resolve with ValidateDefaults evaluates it starting inside loose.json)
+	for ks := 0; ks < 3; ks++ {
+		for kl := 0; kl < 3; kl++ {
+			for _, def := range []string{`{"kids":[{"v":"a string"}]}`, `{"v":1,"kids":[{"kids":[]}]}`, `{"kids":[1]}`} {
+				for placement := 0; placement < 2; placement++ {
+					tree := `{"$id":"http://h/tree.json","$dynamicAnchor":"n","type":"object","properties":{"kids":{"type":"array","items":{"$dynamicRef":"#n"}}}}`
+					loose := `{"$id":"loose.json",` + rootKinds[kl] + `"$ref":"tree.json","default":` + def + `}`
+					strict := `"$id":"http://h/strict.json",` + rootKinds[ks] + `"$ref":"tree.json","properties":{"v":{"type":"integer"}}`
+					u := &Universe{Base: "http://h/strict.json", Docs: map[string]string{}, Kind: "tree-default", Insts: treeInsts, Meta: map[string]int{"vd": 1}}
+					if placement == 0 {
+						u.Root = `{` + strict + `,"$defs":{"loose":` + loose + `,"t":` + tree + `}}`
+					} else {
+						u.Root = `{` + strict + `,"$defs":{"loose":` + loose + `}}`
+						u.Docs["http://h/tree.json"] = tree
+					}
+					yield(u)
 				}
 			}
 		}
